@@ -83,6 +83,7 @@ type PkgSpec struct {
 	Contracts []*Contract
 	GlobalInv []*Clause
 	Axioms    []*Clause
+	TypeInvs  map[string]string // type name -> pred name
 	Hash      string
 }
 
@@ -161,6 +162,17 @@ func ParseContractFile(path, pkgPath string) (*PkgSpec, error) {
 				p.Line = ln + 1
 				ps.Preds = append(ps.Preds, p)
 				curPred = p
+				cur = nil
+				continue
+			case "typeinv":
+				f := strings.Fields(text)
+				if len(f) != 3 {
+					return nil, fmt.Errorf("%s:%d: typeinv <Type> <pred>", path, ln+1)
+				}
+				if ps.TypeInvs == nil {
+					ps.TypeInvs = map[string]string{}
+				}
+				ps.TypeInvs[f[1]] = f[2]
 				cur = nil
 				continue
 			case "globalinv", "axiom":
@@ -534,6 +546,9 @@ func strat(s string, i int) int { panic("spec") }
 func bits(f float64) uint64 { panic("spec") }
 func isnan(f float64) bool { panic("spec") }
 func feq(a, b float64) bool { panic("spec") }
+func fsame(a, b float64) bool { panic("spec") }
+func fst2[A, B any](a A, b B) A { panic("spec") }
+func snd2[A, B any](a A, b B) B { panic("spec") }
 `
 
 type qualifier struct {
@@ -599,9 +614,18 @@ func (e *Engine) sigForFunc(fn *ssa.Function, q *qualifier) *unitSig {
 		us.results = append(us.results, n+" "+types.TypeString(res.At(i).Type(), q.f))
 		seen[n] = true
 	}
+	count := map[string]int{}
 	for _, l := range fn.Locals {
 		n := l.Comment
-		if n == "" || seen[n] || !isGoIdent(n) {
+		if n == "" || !isGoIdent(n) {
+			continue
+		}
+		count[n]++
+		if count[n] > 1 {
+			// later declarations of the same name: name__2, name__3, ... (in declaration order)
+			n = fmt.Sprintf("%s__%d", n, count[n])
+		}
+		if seen[n] {
 			continue
 		}
 		et := l.Type().(*types.Pointer).Elem()
